@@ -432,7 +432,8 @@ class PackageGenerator:
                     t = ann if (ann and r.random() < 0.5 and "Literal" not in ann and "|" not in ann) else ""
                     if self.f("DOC_TYPE_MISMATCH") and r.random() < 0.5:
                         # the docstring states another type than the hint (or a type where there is no hint)
-                        t = r.choice(["str", "int", "float", "bool", "list[int]", "dict[str, float]", "tuple[int, str]", "set[str]", "list[str]"])
+                        t = r.choice(["str", "int", "float", "bool", "list[int]", "dict[str, float]", "tuple[int, str]", "set[str]", "list[str]",
+                                      "int | str | float", "Optional[int]", "Union[int, str, bool]", "float | int | None"])
                     ptok = self.tokens.new("P", fq, pn)
                     ptext = f"About {ptok}."
                     if r.random() < 0.25:
@@ -790,8 +791,12 @@ class PackageGenerator:
                 f"    def other(self, items: list[{lit}], flag: bool = False) -> tuple[int, str]:\n"
                 "        ...\n\n"
                 "    def _not_shared(self) -> None:\n"
-                "        pass\n",
+                "        pass\n\n"
+                "    def priced(self, amount: Decimal, step: Fraction | None = None) -> Decimal:\n"
+                "        ...\n",
             )
+            mb.add_import("from decimal import Decimal")
+            mb.add_import("from fractions import Fraction")
             if override:
                 mb.body.append(f'class PubOne(_Base):\n    def own_one(self) -> int:\n        ...\n\n    def shared(self, mode: int = 0) -> int:\n        """Overridden {tok_o}."""\n        ...\n')
             else:
@@ -806,8 +811,15 @@ class PackageGenerator:
                 mo.body.append("class PubThree(_Base):\n    def own_three(self, v: int = 3) -> None:\n        pass\n")
                 mo.all_classes.append("PubThree")
                 self.probes.setdefault("classes", []).append(f"{mo.qname}.PubThree")
+                # a third module whose subclass, like PubTwo, adds no members of its own
+                m4 = self.new_module(top, "inherit_third")
+                m4.add_import(f"from {mb.qname} import _Base")
+                m4.body.append("class PubFour(_Base):\n    pass\n")
+                m4.all_classes.append("PubFour")
+                group.append(f"{m4.qname}.PubFour")
+                self.probes.setdefault("classes", []).append(f"{m4.qname}.PubFour")
                 group.append(f"{mo.qname}.PubThree")
-            self.probes["inherit_groups"].append({"base": f"{mb.qname}._Base", "subs": group, "members": ["shared", "other"] + (["rooted"] if two_level else [])})
+            self.probes["inherit_groups"].append({"base": f"{mb.qname}._Base", "subs": group, "members": ["shared", "other", "priced"] + (["rooted"] if two_level else [])})
 
         if self.f("TYPEVARS"):
             mt = self.new_module(top, "generic_mod")
